@@ -1,8 +1,8 @@
 package rules
 
 import (
-	"go/ast"
-	"go/constant"
+	"fmt"
+	"os"
 	"go/token"
 	"strings"
 
@@ -185,31 +185,25 @@ func ruleReservedNamespace(w *core.World, r *core.Report) {
 		r.Unresolved("checkpoint.BisyncKeyPrefix", "reserved prefix constant not found")
 		return
 	}
-	p := w.Pkg("pkg/redis/checkpoint")
-	// constructors: fmt.Sprintf("%s:…", BisyncKeyPrefix, …) – the format starts with %s: and the first operand is the prefix constant
+	// constructors: the key they build starts with the constant "<reserved prefix>:" (whether written with
+	// Sprintf, by concatenation, or through a shared helper)
 	for _, name := range []string{"BisyncMarkerKey", "BisyncCommitIndexKey", "BisyncLatestCheckpointKey", "BisyncCommitRecordKey", "BisyncRdbRecordKey"} {
-		fd, _ := w.FuncDecl("pkg/redis/checkpoint", "", name)
-		if fd == nil {
-			r.Unresolved("checkpoint."+name, "constructor not found")
+		f := fn(w, r, "pkg/redis/checkpoint."+name)
+		if f == nil {
 			continue
 		}
-		ok := false
-		ast.Inspect(fd.Body, func(n ast.Node) bool {
-			call, isCall := n.(*ast.CallExpr)
-			if !isCall || len(call.Args) < 2 {
-				return true
+		t, ok := funcStrTemplate(f)
+		if !ok {
+			r.Undecided("checkpoint."+name+"/reserved-prefix", f.Pos(), "the shape of the key this function builds could not be determined")
+			continue
+		}
+		if os.Getenv("GUNYU_DEBUG") != "" {
+			for _, pc := range t {
+				fmt.Printf("DEBUG tmpl %s: lit=%q hole=%v\n", name, pc.lit, pc.hole)
 			}
-			if se, isSel := call.Fun.(*ast.SelectorExpr); !isSel || se.Sel.Name != "Sprintf" {
-				return true
-			}
-			f0 := p.TypesInfo.Types[call.Args[0]].Value
-			a1 := p.TypesInfo.Types[call.Args[1]].Value
-			if f0 != nil && a1 != nil && strings.HasPrefix(constant.StringVal(f0), "%s:") && constant.StringVal(a1) == prefix {
-				ok = true
-			}
-			return true
-		})
-		r.Check(ok, "checkpoint."+name+"/reserved-prefix", fd.Pos(), "bookkeeping keys must be built as \"<reserved prefix>:…\" so that the opposite link can recognise and skip them")
+		}
+		good := len(t) > 0 && t[0].hole == nil && strings.HasPrefix(t[0].lit, prefix+":")
+		r.Check(good, "checkpoint."+name+"/reserved-prefix", f.Pos(), "bookkeeping keys must be built as \"<reserved prefix>:…\" so that the opposite link can recognise and skip them")
 	}
 	// the namespace test of the parser
 	if f := fn(w, r, "syncer.isBisyncNamespaceKey"); f != nil {
@@ -472,7 +466,7 @@ func ruleTxnBuffer(w *core.World, r *core.Report) {
 				_, fresh := next.(*ssa.MakeSlice)
 				empty := false
 				for _, fct := range p.Conds {
-					if c, ok := core.AsCmp(fct.Cond, fct.Val); ok && (c.Op == token.LEQ || c.Op == token.EQL) && isConstInt(0)(c.Y) && lenOf(func(v ssa.Value) bool { return v == ssa.Value(buf) })(c.X) {
+					if c, ok := core.FactCmp(fct); ok && (c.Op == token.LEQ || c.Op == token.EQL) && isConstInt(0)(c.Y) && lenOf(func(v ssa.Value) bool { return v == ssa.Value(buf) })(c.X) {
 						empty = true
 					}
 				}
